@@ -108,8 +108,9 @@ def num(v: int) -> str:
     if v < 0:
         return str(v)
     # the choice is spread by a multiplicative hash: it must not be tied to the low bits (= the last digits) of the value
-    forms = [hex, str, lambda x: "0x%X" % x, hex, oct, str, lambda x: "0X%x" % x, bin]
-    return forms[((v * 2654435761) >> 11) % 8](v)
+    forms = [hex, str, lambda x: "0x%X" % x, hex, oct, str, lambda x: "0X%x" % x, bin,
+             lambda x: "0B" + format(x, "_b"), lambda x: "0O" + format(x, "o"), lambda x: format(x, "_d"), lambda x: "0x" + format(x, "_x")]
+    return forms[((v * 2654435761) >> 11) % len(forms)](v)
 
 
 def cli_cmd(*args) -> list:
